@@ -26,6 +26,7 @@ REWRITES = {
     'R9': 'result named: -> T  becomes  -> (r: T)',
     'R10': 'async erased: async fn -> fn, .await deleted',
     'R11': 'derive(Clone) expanded to field-wise impl with assumed clone(x)==x',
+    'R12': 'derive(Default) expanded to the field-wise impl the derive generates (inside verus!, verified, not assumed)',
 }
 
 
@@ -158,7 +159,7 @@ pub assume_specification [<{q} as PartialEq>::eq] (a: &{q}, b: &{q}) -> (r: bool
                 self._rw('R4')
         return kept
 
-    def struct(self, path, name, derive=None, clone='auto', pub_fields=True, structural='auto'):
+    def struct(self, path, name, derive=None, clone='auto', pub_fields=True, structural='auto', default_ensures=None):
         src, e = find(path, 'struct', struct=name)
         a, b = e['item']
         edits = []
@@ -185,6 +186,32 @@ pub assume_specification [<{q} as PartialEq>::eq] (a: &{q}, b: &{q}) -> (r: bool
             edits.append((e['vis'][0], e['vis'][1], [Seg('pub')]))
         self._emit_type(src, e, a, b, edits, kept, clone, structural, name, 'struct')
         self.extracted.append((path, f'struct {name}'))
+        if default_ensures is not None:
+            has_default = any(at['path'] == 'derive' and 'Default' in src[at['span'][0]:at['span'][1]].decode() for at in e.get('attrs', []))
+            if not has_default:
+                raise LostAnchor(f'{path}: struct {name} no longer derives Default')
+            fields = e['fields']
+            if fields and fields[0]['name'] is None:
+                body = f'{name}(' + ', '.join('Default::default()' for _ in fields) + ')'
+            else:
+                body = f'{name} {{ ' + ', '.join(f'{f["name"]}: Default::default()' for f in fields) + ' }'
+            fid = f'{self.prop}.{self.name}.{name}::default'
+            segs = [Seg(f'impl Default for {name} {{\n/*VXFN {fid}*/ fn default() -> (r: Self)\n        ensures\n')]
+            cl = []
+            for nm, text in default_ensures:
+                cid = f'{fid}.ensures.{nm}'
+                self.clauses[cid] = {'kind': 'ensures', 'fn': fid, 'text': ' '.join(text.split())}
+                cl.append(cid)
+                segs += [Seg('            '), Seg(text, clause=cid, fn=fid), Seg(',\n')]
+            segs.append(Seg(f'    {{ {body} }} /*VXEND {fid}*/\n}}\n'))
+            for sg in segs:
+                sg.fn = fid
+            self.inside.extend(segs)
+            cid = f'{fid}.safety'
+            self.clauses[cid] = {'kind': 'safety', 'fn': fid, 'text': 'implicit safety conditions'}
+            cl.append(cid)
+            self.functions.append({'id': fid, 'path': path, 'impl': name, 'fn': 'default', 'clauses': cl, 'loops': 0, 'trait': True})
+            self._rw('R12')
 
     def enum(self, path, name, keep=None, derive=None, clone='auto', structural='auto', other=True):
         """keep: list of variant names that are kept (R6); None keeps all."""
